@@ -326,6 +326,11 @@ func catalog(p ScenParams) *WSpec {
 			ps.Kind = "func"
 			ps.WriteIdiom = true
 		}
+	case "appendout": // p's command appends to its output (>>): it relies on starting in an EMPTY working directory
+		if ps := w.proc("p"); ps != nil {
+			ps.Kind = "cmd"
+			ps.AppendOut = true
+		}
 	case "dirout": // the output of p is a DIRECTORY with two files (mkdir {o:out} && write into it)
 		if ps := w.proc("p"); ps != nil {
 			ps.Kind = "cmd"
